@@ -5,7 +5,7 @@ harness("h_c01", ["harness/h_c01.cc"], libs=("csg",))
 
 PROPS["C01"] = dict(
     parts=[rc("h_c01", quick=dict(cases=24000, procs=8, budget_s=600),
-              thorough=dict(cases=800000, procs=16, budget_s=1500)),
+              thorough=dict(cases=320000, procs=16, budget_s=2400)),
            py("vv.exe_c01", quick=dict(cases=320, procs=8, budget_s=600),
               thorough=dict(cases=8000, procs=16, budget_s=1500))],
     rule=("map (lib): open / orthorhombic / GROMACS-reduced triclinic boxes (edges k/16 in 0.44..50 nm, skews incl. +-half edge), 1-4 molecule types "
